@@ -196,7 +196,14 @@ func c09Check(ci interface{}) lib.Outcome {
 		}
 	}
 	if first != nil {
-		return lib.Outcome{Violation: fmt.Sprintf("goroutine %d, call %d: concurrent Match(%s) returned\n%s\nbut the same call run alone returns\n%s", first.g, first.step, c.Pool[first.input].describe(), first.got, ref[first.input])}
+		msg := fmt.Sprintf("goroutine %d, call %d: concurrent Match(%s) returned\n%s\nbut the same call run alone returns\n%s", first.g, first.step, c.Pool[first.input].describe(), first.got, ref[first.input])
+		// The same call once more, alone, on the classifier the batch ran on: if it is still wrong the batch has damaged
+		// the classifier's state for good, which no amount of machine load can explain (go-diff's wall-clock deadline,
+		// DESIGN 3.4, can make a call under heavy concurrent load return a coarser score once).
+		if again := resultString(shared.Match(inputs[first.input])); again != ref[first.input] {
+			return lib.Outcome{Violation: "state-corruption: after the batch the classifier keeps returning a wrong result for a call run alone\n" + msg}
+		}
+		return lib.Outcome{Violation: msg}
 	}
 	var names []string
 	for _, r := range c.Pool {
